@@ -26,7 +26,7 @@ func (g *gen) n(n int) int {
 	return int(g.u64() % uint64(n))
 }
 func (g *gen) rng(lo, hi int) int { return lo + g.n(hi-lo+1) }
-func (g *gen) p(pct int) bool    { return g.n(100) < pct }
+func (g *gen) p(pct int) bool     { return g.n(100) < pct }
 func pick[T any](g *gen, l []T) T { return l[g.n(len(l))] }
 
 func mix(a, b uint64) uint64 {
@@ -85,7 +85,7 @@ type PeerCfg struct {
 	GR          GRCfg    `json:"gr,omitempty"`
 	ImportPol   []string `json:"import_policy,omitempty"`
 	ExportPol   []string `json:"export_policy,omitempty"`
-	Late        bool     `json:"late,omitempty"` // not configured at start; added by an addpeer op
+	Late        bool     `json:"late,omitempty"`  // not configured at start; added by an addpeer op
 	V4MP        bool     `json:"v4_mp,omitempty"` // the peer announces IPv4 unicast inside MP_REACH_NLRI (no NEXT_HOP attribute)
 }
 
@@ -152,9 +152,9 @@ type Script struct {
 }
 
 type NetCfg struct {
-	LatencyMs  int `json:"latency_ms,omitempty"`
-	Fragment   int `json:"fragment,omitempty"`
-	FragDelay  int `json:"frag_delay_ms,omitempty"`
+	LatencyMs int `json:"latency_ms,omitempty"`
+	Fragment  int `json:"fragment,omitempty"`
+	FragDelay int `json:"frag_delay_ms,omitempty"`
 }
 
 // PolicyCfg is a small subset of the policy language, enough for C15/C16/C20 workloads.
